@@ -598,10 +598,27 @@ def write_ghw(path, items, rounds=None, snapshot=None, share_strings=True, big_e
     first_id = {}
     next_id = 1
     nscopes = 0
+    ndecl = [0]
 
     def walk(its):
         nonlocal next_id, nscopes, hie
         for it in its:
+            if isinstance(it, Scope) and it.extra.get("composite"):
+                # one signal of a composite type: an array (its elements in declaration order) or a record (its fields)
+                comp = it.extra["composite"]
+                if comp[0] == "array":
+                    t = tt.vector(ghw_type_of(tt, it.children[0]), comp[3], comp[1], comp[2], name=comp[4])
+                else:
+                    t = tt.record(comp[1], [(e.name, ghw_type_of(tt, e)) for e in it.children])
+                ndecl[0] += 1
+                hie += bytes([GHW_DIR.get(it.extra.get("dir", "signal"), 16)]) + varint(tt.sid(it.name)) + varint(t)
+                for e in it.children:
+                    i = next(k for k, x in enumerate(vs) if x is e)
+                    first_id[i] = next_id
+                    for _ in range(e.width if e.kind in ("logic", "bit") else 1):
+                        hie += varint(next_id)
+                        next_id += 1
+                continue
             if isinstance(it, Scope):
                 nscopes += 1
                 hie += bytes([GHW_SCOPE.get(it.kind, 6)]) + varint(tt.sid(it.name))
@@ -609,6 +626,7 @@ def write_ghw(path, items, rounds=None, snapshot=None, share_strings=True, big_e
                 hie.append(15)
             else:
                 i = next(k for k, x in enumerate(vs) if x is it)
+                ndecl[0] += 1
                 hie += bytes([GHW_DIR.get(it.extra.get("dir", "signal"), 16)]) + varint(tt.sid(it.name)) + varint(ghw_type_of(tt, it))
                 first_id[i] = next_id
                 cnt = it.width if it.kind in ("logic", "bit") else 1
@@ -624,7 +642,7 @@ def write_ghw(path, items, rounds=None, snapshot=None, share_strings=True, big_e
     out += b"STR\0" + bytes(4) + struct.pack(E + "I", len(strings)) + struct.pack(E + "i", 0)
     out += ghw_strings(strings, share_strings) + b"EOS\0"
     out += b"TYP\0" + bytes(4) + struct.pack(E + "I", len(tt.types)) + b"".join(tt.types) + b"\0"
-    out += b"HIE\0" + bytes(4) + struct.pack(E + "I", nscopes) + struct.pack(E + "I", len(vs)) + struct.pack(E + "I", num_ids) + hie + b"EOH\0"
+    out += b"HIE\0" + bytes(4) + struct.pack(E + "I", nscopes) + struct.pack(E + "I", ndecl[0]) + struct.pack(E + "I", num_ids) + hie + b"EOH\0"
 
     def nbits(v):
         return v.width if v.kind in ("logic", "bit") else 1
@@ -681,7 +699,8 @@ FST_VHDL_MERGE = {0: None, 1: "Boolean", 2: "Bit", 3: "BitVector", 4: "StdULogic
                   15: None, 16: "String"}
 DIR_NAME = ["Implicit", "Input", "Output", "InOut", "Buffer", "Linkage"]
 GHW_SCOPE_NAME = {"instance": "VhdlArchitecture", "package": "VhdlPackage", "block": "VhdlBlock",
-                  "generate_if": "VhdlIfGenerate", "generate_for": "VhdlForGenerate", "generic": "GhwGeneric"}
+                  "generate_if": "VhdlIfGenerate", "generate_for": "VhdlForGenerate", "generic": "GhwGeneric",
+                  "ghw_array": "VhdlArray", "ghw_record": "VhdlRecord"}
 GHW_DIR_NAME = {"signal": "Implicit", "in": "Input", "out": "Output", "inout": "InOut", "buffer": "Buffer", "linkage": "Linkage"}
 
 
